@@ -467,6 +467,11 @@ func (s *scope) resolve(key instanceKey, descriptor *Descriptor) (any, error) {
 			return instance, nil
 		}
 
+		// The provider was closed meanwhile and dropped its singletons
+		if atomic.LoadInt32(&s.rootProvider.disposed) != 0 {
+			return nil, ErrProviderDisposed
+		}
+
 		// Singleton should have been created at build time
 		return nil, &ResolutionError{
 			ServiceType: key.Type,
